@@ -1,5 +1,5 @@
 """C03 — a legal move yields the prescribed successor (effect tables of the four move kinds)."""
-from sa.sym import Engine, show, show_cond, subterms, PathLimit, C, is_const, DEFAULT_FOLD_ONLY
+from sa.sym import guards, Engine, show, show_cond, subterms, PathLimit, C, is_const, DEFAULT_FOLD_ONLY
 from sa.facts import field_writes
 from .common import *
 from .tables import rows, is_true, is_false, pin
@@ -576,7 +576,10 @@ def r7_independence(ctx):
                     for s in subterms(a):
                         if s[0] == 'call' and s[1].startswith(BOARD + '::') and method(s[1]) in READ_ONLY_STATE:
                             bad.add((m, method(s[1])))
-            for a, v in o.conds:
+            if o.kind == 'abort':
+                continue
+            # assertions (`debug_assert!(board.peek_..() ..)`: the other side panics) are not a dependence of the successor on the value
+            for a, v in guards(outs, o):
                 for s in subterms(a):
                     if s[0] == 'call' and s[1].startswith(BOARD + '::') and method(s[1]) in READ_ONLY_STATE:
                         bad.add(('branch', method(s[1])))
